@@ -62,6 +62,9 @@ class C07(Harness):
         # two watching methods, each with a single path through the same sub-object(s)
         for d1, d2 in ((['a.b.x'], ['a.b.y']), (['a.x'], ['a.b.x']), (['a.b.x'], ['a.b.x'])):
             out.append({'deps': d1, 'deps2': d2, 'a0': 'M0'})
+        # two parents holding the same sub-objects, each with the (same-named) dependent method
+        for ds in (['a.x'], ['a.b.x'], ['a.x', 'c.y']):
+            out.append({'deps': ds, 'a0': 'M0', 'two': True})
         for fid, deps, a0, hist in PINNED:
             out.append({'deps': deps, 'a0': a0, 'pinned': hist, 'finding': fid})
         return out
@@ -90,7 +93,7 @@ class C07(Harness):
         flags = {'raise': False}
 
         def cb(self):
-            log.append('cb')
+            log.append('cb' if self is not objs.get('T2') else 'cbB')
             if flags['raise']:
                 flags['raise'] = False
                 raise Boom('dependent method')
@@ -114,6 +117,10 @@ class C07(Harness):
             setattr(objs[o], n, objs[v] if v else None)
             model[o][n] = v
         objs['T'] = Top(a=objs[cfg['a0']] if cfg['a0'] else None, c=objs['L2'])
+        if cfg.get('two'):
+            # a second parent holding the same sub-objects: its dependent method (same name, other object) is judged on its own
+            objs['T2'] = Top(a=objs['M0'], c=objs['L2'])
+            model['T2'] = {'a': 'M0', 'c': 'L2', 'x': 0}
         return dict(objs=objs, log=log, classes=(Leaf, Mid, Top), flags=flags), model
 
     def enabled(self, cfg, model):
@@ -142,7 +149,8 @@ class C07(Harness):
                 for vc in ('L0', 'L2'):
                     ops.append(['attach2', 'T', 'a+c', va, vc])
                     ops.append(['attach2', 'T', 'c+a', va, vc])
-        if len(cfg['deps']) == 1 and not cfg.get('deps2'):
+        if len(cfg['deps']) == 1 and not cfg.get('deps2') and not cfg.get('two'):
+            # (with two parents an exception from one parent's method also ends the dispatch to the other: C05's subject, not judged here)
             # the dependent method raises while it is being invoked for this replacement
             ops.append(['attach_r', 'M0', 'b', 'L2'])
             ops.append(['attach_r', 'T', 'a', 'M1'])
@@ -150,10 +158,10 @@ class C07(Harness):
         ops.append(['set', 'L0', 'x', model['L0']['x']])      # same-value assignment
         return ops
 
-    def reach(self, model, path):
+    def reach(self, model, path, root='T'):
         """-> (chain of objects walked, reached value or BOT, value contains object references?)"""
-        cur = 'T'
-        chain = ['T']
+        cur = root
+        chain = [root]
         parts = path.split('.')
         for i, p in enumerate(parts):
             if cur is None:
@@ -190,6 +198,7 @@ class C07(Harness):
             last = i == len(history) - 1
             before = {p: self.reach(model, p) for p in cfg['deps']}
             before2 = {p: self.reach(model, p) for p in cfg.get('deps2', [])}
+            beforeB = {p: self.reach(model, p, 'T2') for p in cfg['deps']} if cfg.get('two') else None
             del log[:]
             try:
                 if op[0] == 'attach2':
@@ -223,6 +232,15 @@ class C07(Harness):
                     vs.append(V('fires-exactly-once', 'history %r: second method (depends on %r): reached %r -> %r but it ran %d times' % (
                         history, cfg['deps2'], [b2[p][1] for p in cfg['deps2']], [a2[p][1] for p in cfg['deps2']], n2), got=n2, op=op[0],
                         deps='+'.join(cfg['deps']) + '|' + '+'.join(cfg['deps2']), target='second-method'))
+            if cfg.get('two') and last:
+                bB, aB = beforeB, {p: self.reach(model, p, 'T2') for p in cfg['deps']}
+                mustB = [p for p in cfg['deps'] if bB[p][1] != BOT and aB[p][1] != BOT and bB[p][1] != aB[p][1]]
+                quietB = all(bB[p] == aB[p] and not bB[p][2] for p in cfg['deps'])
+                nB = log.count('cbB')
+                if (mustB and nB != 1) or (quietB and nB != 0) or nB > 1:
+                    vs.append(V('fires-exactly-once', 'history %r: second parent sharing the sub-objects (depends on %r): reached %r -> %r but its method ran %d times' % (
+                        history, cfg['deps'], [bB[p][1] for p in cfg['deps']], [aB[p][1] for p in cfg['deps']], nB), got=nB, op=op[0],
+                        deps='+'.join(cfg['deps']), target='second-parent'))
             must, either = [], []
             for p in cfg['deps']:
                 (c0, v0, r0), (c1, v1, r1) = before[p], after[p]
